@@ -4,6 +4,7 @@ mod c04;
 mod c05;
 mod c06;
 mod c07;
+mod c08;
 mod c10;
 mod c11;
 mod c13;
@@ -31,6 +32,7 @@ fn lookup(id: &str) -> Option<(RunFn, CheckFn)> {
         "C05" => (c05::run, c05::check_record),
         "C06" => (c06::run, c06::check_record),
         "C07" => (c07::run, c07::check_record),
+        "C08" => (c08::run, c08::check_record),
         "C10" => (c10::run, c10::check_record),
         "C11" => (c11::run, c11::check_record),
         "C13" => (c13::run, c13::check_record),
@@ -108,6 +110,11 @@ fn main() {
                 println!("{}", ex);
             }
         }
+        return;
+    }
+    if id == "--worker-c08" {
+        install_panic_hook();
+        c08::worker();
         return;
     }
     if id == "--worker-c07" {
